@@ -23,8 +23,8 @@ def child_env(hashseed):
     return e
 
 
-def run_child(scenario, root, kill_at=None, partial=False, record=None, hashseed=0):
-    spec = {"scenario": scenario, "root": root, "kill_at": kill_at, "partial": partial, "record": record}
+def run_child(scenario, root, kill_at=None, partial=False, record=None, hashseed=0, interrupt=None):
+    spec = {"scenario": scenario, "root": root, "kill_at": kill_at, "partial": partial, "record": record, "interrupt": interrupt}
     sp = os.path.join(os.path.dirname(root), f"spec-{os.path.basename(root)}.json")
     with open(sp, "w", encoding="utf-8") as f:
         json.dump(spec, f)
@@ -196,6 +196,11 @@ def crash_rounds(ctx, scenario, rng, case, every, on_kill=None, check_rerun=True
         dir_events = {i for i, (_k, tgt, _s) in enumerate(events, 1) if tgt.endswith(DIR_SUFFIX)}
         kills = {j for i in dir_events for j in (i - 1, i, i + 1, i + 2) if 1 <= j <= N} | set(range(1, N + 1, max(1, N // 10)))
     plan = [(n, partial) for n in sorted(kills) for partial in (False, True)]
+    # ... and, at the events that create or drop something under a final object name, an interruption by exception (Ctrl-C) as well
+    exc_points = [n for n in sorted(kills & interesting_kills(events)) if events[n - 1][0] in ("open-w", "remove")]
+    if every != 1:
+        exc_points = exc_points[:4]
+    plan += [(n, "exception") for n in exc_points]
     run_root = os.path.join(d, "run")
     for j, (n, partial) in enumerate(plan):
         if (j % ctx.nshards != ctx.shard) if stripe is None else (j % stripe[1] != stripe[0]):
@@ -204,19 +209,28 @@ def crash_rounds(ctx, scenario, rng, case, every, on_kill=None, check_rerun=True
             res.count("stopped_by_time_budget")
             break
         kind = events[n - 1][0]
-        if partial and kind not in ("copyfile", "open-w"):
+        by_exc = partial == "exception"
+        if partial and not by_exc and kind not in ("copyfile", "open-w"):
             continue
         copy_master(master, run_root)
-        rc, err = run_child(scenario, run_root, kill_at=n, partial=partial, hashseed=hashseed)
+        rc, err = run_child(scenario, run_root, kill_at=n, partial=False if by_exc else partial, hashseed=hashseed, interrupt="exception" if by_exc else None)
         res.count("crash_children")
+        if by_exc:
+            reached = os.path.exists(os.path.join(run_root, "interrupted.marker"))
+            if reached:
+                os.unlink(os.path.join(run_root, "interrupted.marker"))
+                res.count("interrupted_by_exception")
+            rc = 99 if (reached and rc != 0) else rc
         if rc != 99:
             res.count("kill_point_not_reached")
             res.notes.append(f"{scenario} kill_at={n} rc={rc} {err[-200:]!r}")
             continue
         res.evaluated()
         res.nontrivial(scenario, tag, desc["files"], n, partial)
-        res.count(f"killed_at/{kind}" + ("/partial" if partial else ""))
+        res.count(f"killed_at/{kind}" + ("/exception" if by_exc else "/partial" if partial else ""))
         ctxinfo = {"scenario": scenario, "kill_at": n, "of": N, "event": events[n - 1], "partial": partial, "files": desc["files"]}
+        if by_exc:
+            scenario_key = scenario  # (keys stay per scenario; the variant is in the detail)
         probs, info = audit_after(run_root, scenario)
         res.count("temp_leftovers", info["temps"])
         res.count("unprotected_mismatching_leftovers", info["mismatching_unprotected"])
